@@ -184,27 +184,32 @@ func genHistoryAny(rt *rapid.T, focus string) (*CaseHist, map[string]int) {
 func TestC06(t *testing.T) {
 	Col.Property = "C06"
 	ReplayRegress(t, "C06")
-	for _, tn := range MyTypes() {
+	RunProps(t, rpC06(MyTypes()))
+}
+
+func init() { RapidProps["C06"] = func() []RProp { return rpC06(TypeNames) } }
+
+func rpC06(types []string) (out []RProp) {
+	for _, tn := range types {
 		tn := tn
-		t.Run(tn, func(t *testing.T) {
-			CheckProp(t, "C06", "c06", tn, func(rt *rapid.T) *CaseHist {
-				c, st := genHistoryAny(rt, tn)
-				var cls []string
-				for k := range st {
-					cls = append(cls, k)
+		out = append(out, MkProp("C06", "c06", tn, func(rt *rapid.T) *CaseHist {
+			c, st := genHistoryAny(rt, tn)
+			var cls []string
+			for k := range st {
+				cls = append(cls, k)
+			}
+			nt := st["encode-with-unread-after-partial-consume"] > 0 || st["reencode"] > 0
+			Col.Case(Hash64(JSONOf(c)), nt, cls...)
+			for _, op := range c.Ops {
+				if op.V != nil {
+					Col.Program(op.V.Type)
 				}
-				nt := st["encode-with-unread-after-partial-consume"] > 0 || st["reencode"] > 0
-				Col.Case(Hash64(JSONOf(c)), nt, cls...)
-				for _, op := range c.Ops {
-					if op.V != nil {
-						Col.Program(op.V.Type)
-					}
-				}
-				if nt && Col.WantSample("history") && len(JSONOf(c)) < 2500 {
-					Col.Sample("history", c)
-				}
-				return c
-			}, oracleC06)
-		})
+			}
+			if nt && Col.WantSample("history") && len(JSONOf(c)) < 2500 {
+				Col.Sample("history", c)
+			}
+			return c
+		}, oracleC06))
 	}
+	return
 }
